@@ -8,6 +8,7 @@ pub mod c10;
 pub mod c09;
 pub mod c13;
 pub mod c08;
+pub mod c07;
 
 pub fn meta(id: &str, tier: &str) -> Option<CheckMeta> {
     match id {
@@ -18,6 +19,7 @@ pub fn meta(id: &str, tier: &str) -> Option<CheckMeta> {
         "C09" => Some(c09::meta(tier)),
         "C13" => Some(c13::meta(tier)),
         "C08" => Some(c08::meta(tier)),
+        "C07" => Some(c07::meta(tier)),
         _ => None,
     }
 }
@@ -45,6 +47,7 @@ pub fn worker(ctx: &Ctx, res: &mut ShardResult) {
         "C09" => c09::worker(ctx, res),
         "C13" => c13::worker(ctx, res),
         "C08" => c08::worker(ctx, res),
+        "C07" => c07::worker(ctx, res),
         _ => panic!("unknown check"),
     }
 }
@@ -62,6 +65,7 @@ pub fn replay(path: &str) -> i32 {
         "C09" => c09::replay(&v["case"]),
         "C13" => c13::replay(&v["case"]),
         "C08" => c08::replay(&v["case"]),
+        "C07" => c07::replay(&v["case"]),
         _ => vec![format!("no replayer for {}", id)],
     };
     let _ = json!(null);
